@@ -23,7 +23,7 @@ class C16(BaseCheck):
              'scales.sink:RefCountedSink.Close', 'scales.sink:SharedSinkProvider.CreateSink')
   REQUIRED_ANCHORS = ANCHORS
   REQUIRED_CLASSES = ('singleton', 'refcount', 'shared', 'concurrent-first-requests', 'replaced-after-failure',
-                      'surplus-close', 'reopen-after-last-close', 'same-key', 'different-key',
+                      'surplus-close', 'reopen-after-last-close', 'same-key', 'different-key', 'shared:kafka-broker-key',
                       'underlying-closed-while-held', 'underlying-state-changes',
                       'requester-abandoned-while-opening', 'several-holders', 'holder-closes-while-connecting', 'request-after-last-close', 'holder-gone-before-connect', 'concurrent-holders', 'open-during-yielding-last-close', 'open-count-zero-while-held', 'underlying-open-raises',
                       'surplus-close-from-inside-close', 'underlying-close-raises', 'underlying-open-fails-later')
@@ -549,6 +549,25 @@ class C16(BaseCheck):
     sp = SharedSinkProvider(lambda p: p['key'])
     sp.next_provider = Next()
     keys = ['a', 'b', ('h', 1, 'lbl'), ('h', 2, 'lbl'), None][:rng.randint(2, 5)]
+    if idx % 3 == 2:
+      # the sharing key the Kafka builder uses: one connection per broker address and label, whichever of the
+      # broker's partitions a balancer member stands for
+      from scales.kafka.builder import Kafka
+      from scales.kafka.sink import KafkaEndpoint
+      classes.add('shared:kafka-broker-key')
+      ksp = SharedSinkProvider(Kafka._get_sink_key)
+      ksp.next_provider = Next()
+      b1 = [ksp.CreateSink({'endpoint': KafkaEndpoint('kb1', 9092, part_), 'label': 'kafka', 'key': 'kb1'})
+            for part_ in rng.sample(range(12), rng.randint(2, 4))]
+      other = ksp.CreateSink({'endpoint': KafkaEndpoint(rng.choice(['kb2', 'kb1']), 9093, 0), 'label': 'kafka', 'key': 'kb2'})
+      relabel = ksp.CreateSink({'endpoint': KafkaEndpoint('kb1', 9092, 0), 'label': 'kafka-bootstrap', 'key': 'kb1b'})
+      out.obligations += 2
+      if any(s_ is not b1[0] for s_ in b1):
+        out.violate('shared:same-key-different-sink', 'members standing for %d partitions of one Kafka broker (same address, same '
+                    'label) got %d different shared sinks' % (len(b1), len(set(map(id, b1)))), {'kafka_key': True})
+      if other is b1[0] or relabel is b1[0]:
+        out.violate('shared:different-key-same-sink', 'another broker address, or another label, shares the sink of kb1:9092/kafka',
+                    {'kafka_key': True})
     held = {}     # key -> list of strong refs
     opened_by = {}
     nops = rng.choice([5, 20, 60])
